@@ -86,6 +86,15 @@ def make_hierarchy(spec):
                     ns["__init__"] = __init__
                     cls = type(name, (base,), ns)
                     cls = p.expr_dataclass(init=False)(cls)
+                elif lvl.get("hash") is False:
+                    # @expr_dataclass(hash=False) with a hand-written __hash__ that agrees
+                    # with the generated __eq__ (all fields)
+                    def __hash__(self, _allf=allf + tuple(lvl.get("noinit", ()))):
+                        return hash((type(self).__name__,
+                                     *[getattr(self, f) for f in _allf]))
+                    ns["__hash__"] = __hash__
+                    cls = type(name, (base,), ns)
+                    cls = p.expr_dataclass(hash=False)(cls)
                 else:
                     cls = type(name, (base,), ns)
                     cls = p.expr_dataclass()(cls)
